@@ -35,6 +35,8 @@ func checkC04(c *Ctx, r *Report) {
 	r.Floor("G8", 8)
 	ruleG5(c, r, scope, map[string]func(*Ctx, *Report, string) bool{"mp4.SencBox.ParseReadBox:/ (SencBox).SampleCount": invSencSampleCount})
 	ruleG6(c, r)
+	ruleSpecTable(c, r, "mp4", "", "AC3SampleRates", [][]int64{{48000}, {44100}, {32000}}, "ETSI TS 102 366 Table 4.1 (fscod)")
+	ruleSpecTable(c, r, "mp4", "", "AC3BitrateCodesKbps", [][]int64{{32}, {40}, {48}, {56}, {64}, {80}, {96}, {112}, {128}, {160}, {192}, {224}, {256}, {320}, {384}, {448}, {512}, {576}, {640}}, "ETSI TS 102 366 Table F.4.1 (bit_rate_code)")
 	ruleMdatAfterMoof(c, r)
 	ruleGNIL(c, r, scope, 50)
 	ruleGASSERT(c, r, scope, 25)
